@@ -41,7 +41,7 @@ CONSTANTS
   T, DNST,     \* configured NAT timeout, DNS timeout (17 s) in clock units
   Ticks,       \* possible clock advances
   MaxNow, MaxDg, MaxRp, MaxAssoc,   \* bounds (inside Next)
-  Slack,       \* 0 in the model; measurement slack of real-time traces (UdpNatTrace)
+  Slack, Bound,  \* 0 in the model; measurement slack / reclamation bound of real-time traces (UdpNatTrace)
   ZonedPanics  \* TRUE: model of the tree in which a zoned reply source crashes timedCopy (udp.go:425-440)
 
 VARIABLES
@@ -90,7 +90,8 @@ ReadLen(sz, k) == IF sz > BufSz - SaltSz[k] - MaxAddrLen THEN BufSz - SaltSz[k] 
 \* Pack needs saltStart+salt+hdr+body+tag <= BufSz, i.e. body <= BufSz - salt - 19 - tag
 PackFits(n, k) == n + Tag <= BufSz - SaltSz[k] - MaxAddrLen
 WireToClient(n, k, s) == SaltSz[k] + HdrLen(s) + n + Tag
-WireFromClient(d) == (IF d.k \in Keys THEN SaltSz[d.k] ELSE 32) + HdrLen(d.dst) + d.sz + Tag
+WireOf(k, dst, sz) == (IF k \in Keys THEN SaltSz[k] ELSE 32) + HdrLen(dst) + sz + Tag
+WireFromClient(d) == d.wire        \* length of the datagram as the client sent it
 
 FreeAssoc == [st |-> "free", c |-> 0, key |-> 0, dl |-> -1, rd |-> -1, armed |-> TRUE, open |-> FALSE,
               pc |-> "none", cur |-> NoD, victim |-> 0, ns |-> 0]
@@ -122,7 +123,10 @@ ClientSend(c, k, hdr, dst, cls) ==
   /\ ~closing /\ Len(sentC) < MaxDg /\ EnvOK
   /\ h.pc = "read" /\ inC = <<>>
   /\ nas < MaxAssoc \/ ~(k \in Keys /\ hdr /\ dst \in Allowed)     \* bound: room for the association it may create
-  /\ LET d == [id |-> Len(sentC) + 1, c |-> c, k |-> k, hdr |-> hdr, dst |-> dst, sz |-> CSz(cls, k, dst)] IN
+  /\ LET d == [id |-> Len(sentC) + 1, c |-> c, k |-> k, hdr |-> hdr, dst |-> dst, sz |-> CSz(cls, k, dst),
+               wire |-> WireOf(k, dst, CSz(cls, k, dst)),
+               t |-> now,
+               la |-> nat[c]] IN      \* the client's live association as the metrics sink knows it (exact when quiescent)
        /\ sentC' = Append(sentC, d)
        /\ inC' = Append(inC, d)
        /\ tr' = Append(tr, [a |-> "CDgram", c |-> c, k |-> k, hdr |-> hdr, dst |-> dst, cls |-> cls])
@@ -133,7 +137,9 @@ SenderSend(s, a, cls) ==
   /\ Len(sentS) < MaxRp /\ EnvOK
   /\ as[a].st = "used" /\ as[a].open /\ as[a].pc = "read" /\ inT[a] = <<>>
   /\ LET r == [id |-> Len(sentS) + 1, src |-> s, a |-> a, sz |-> RSz(cls, as[a].key, s),
-               nw |-> Len(SelectSeq(outT, LAMBDA e : e.a = a))] IN     \* datagrams a target had seen from a by then
+               nw |-> Len(SelectSeq(outT, LAMBDA e : e.a = a)),
+               t |-> now,
+               fits |-> LET n == RSz(cls, as[a].key, s) IN PackFits(n, as[a].key) /\ WireToClient(n, as[a].key, s) <= MaxWire] IN     \* datagrams a target had seen from a by then
        /\ sentS' = Append(sentS, r)
        /\ inT' = [inT EXCEPT ![a] = Append(@, r)]
        /\ tr' = Append(tr, [a |-> "TReply", src |-> s, to |-> as[a].c, as |-> a, cls |-> cls])
@@ -157,10 +163,11 @@ Tick(d) ==
    (they commute with everything else): ReadFrom+Get; decrypt+validate(+report on failure); WriteTo+report. *)
 HU == <<inT, now, closing, crashed, sentC, sentS, outC, mlogG, tr>>   \* never changed by the Handle loop
 HIdleRec == [pc |-> "read", d |-> NoD, a |-> 0]
-MEv(ev, a, c, key, st, x, y) == [ev |-> ev, a |-> a, c |-> c, key |-> key, st |-> st, x |-> x, y |-> y, t |-> now]
-CSEv(d, found) == MEv("CS", 0, d.c, 0, IF found THEN "true" ELSE "false", 0, 0)
+\* did: the datagram being handled when the call was made
+MEv(ev, a, c, key, st, x, y, did) == [ev |-> ev, a |-> a, c |-> c, key |-> key, st |-> st, x |-> x, y |-> y, did |-> did, t |-> now]
+CSEv(d, found) == MEv("CS", 0, d.c, 0, IF found THEN "true" ELSE "false", 0, 0, d.id)
 \* :213-220 AddPacketFromClient - only when there is an association
-PktCEv(d, a, st, ptb) == MEv("PktC", a, d.c, as[a].key, st, WireFromClient(d), ptb)
+PktCEv(d, a, st, ptb) == MEv("PktC", a, d.c, as[a].key, st, WireFromClient(d), ptb, d.id)
 
 \* :139 ReadFrom returns a datagram; :165 nm.Get under RLock
 H_RecvLookup ==
@@ -218,7 +225,7 @@ H_Open ==
        /\ nas' = a
        /\ as' = [as EXCEPT ![a] = [FreeAssoc EXCEPT !.st = "used", !.c = d.c, !.key = d.k, !.open = TRUE, !.pc = "read"]]
        /\ nat' = [nat EXCEPT ![d.c] = a]
-       /\ mlogH' = Append(mlogH, MEv("NatAdd", a, d.c, d.k, "", d.id, pending))
+       /\ mlogH' = Append(mlogH, MEv("NatAdd", a, d.c, d.k, "", d.id, pending, d.id))
        /\ h' = [h EXCEPT !.a = a, !.pc = "latch"]
   /\ UNCHANGED <<klist, lastIP, inC, outT, conn>> /\ UNCHANGED HU
 
@@ -243,7 +250,7 @@ H_Send ==
        /\ as' = [as EXCEPT ![a].rd = IF later THEN nd ELSE @, ![a].dl = IF later /\ up THEN nd ELSE @]
        /\ conn' = [conn EXCEPT ![a] = @ \o (IF later THEN <<COp("dl", nd, "write", d.dst)>> ELSE <<>>)
                                         \o (IF up THEN <<COp("wr", -1, "", d.dst)>> ELSE <<>>)]
-       /\ outT' = IF up THEN Append(outT, [did |-> d.id, a |-> a, sock |-> a, dst |-> d.dst, sz |-> d.sz, p |-> d.id, t |-> now])
+       /\ outT' = IF up THEN Append(outT, [did |-> d.id, a |-> a, sock |-> a, dst |-> d.dst, sz |-> d.sz, p |-> d.id, ts |-> now, t |-> now])
                   ELSE outT      \* the association was torn down in the meantime: write on a closed socket
        /\ mlogH' = Append(mlogH, IF up THEN PktCEv(d, a, "OK", d.sz) ELSE PktCEv(d, a, "ERR_WRITE", 0))
        /\ h' = HIdleRec
@@ -292,14 +299,14 @@ G_Relay(a) ==
                            THEN [outC EXCEPT ![a] = Append(@, [sid |-> r.id, a |-> a, c |-> as[a].c, key |-> k, salt |-> <<a, as[a].ns + 1>>,
                                                              hdr |-> r.src, sz |-> n, p |-> r.id, wire |-> w, t |-> now])]
                            ELSE outC
-              /\ mlogG' = [mlogG EXCEPT ![a] = Append(@, MEv("PktT", a, as[a].c, k, st, n, IF st = "OK" THEN w ELSE 0))]
+              /\ mlogG' = [mlogG EXCEPT ![a] = Append(@, MEv("PktT", a, as[a].c, k, st, n, IF st = "OK" THEN w ELSE 0, r.id))]
   /\ UNCHANGED <<nat, inT, conn>> /\ UNCHANGED GU
 
 \* :414-419 ReadFrom times out -> timedCopy returns; :364 RemoveNatEntry
 G_Expire(a) ==
   /\ as[a].pc = "read" /\ Expired(a)
   /\ as' = [as EXCEPT ![a].pc = "del"]
-  /\ mlogG' = [mlogG EXCEPT ![a] = Append(@, MEv("NatRemove", a, as[a].c, as[a].key, "", 0, 0))]
+  /\ mlogG' = [mlogG EXCEPT ![a] = Append(@, MEv("NatRemove", a, as[a].c, as[a].key, "", 0, 0, 0))]
   /\ UNCHANGED <<nat, inT, crashed, outC, conn>> /\ UNCHANGED GU
 
 \* :365, :346-356 del(clientAddr.String()) under Lock: removes WHATEVER entry is stored under the key
@@ -341,10 +348,14 @@ LiveSpec == FairSpec /\ WF_vars(CloseListener)
 AIds == 1..MaxAssoc
 Adds == {m \in Range(mlogH) : m.ev = "NatAdd"}
 Added(a) == \E m \in Adds : m.a = a
-AddOf(a) == CHOOSE m \in Adds : m.a = a
+NoAdd == [ev |-> "NatAdd", a |-> 0, c |-> 0, key |-> -1, st |-> "", x |-> 0, y |-> 0, did |-> 0, t |-> 0]
+AddOf(a) == IF Added(a) THEN CHOOSE m \in Adds : m.a = a ELSE NoAdd
 RemsOf(a) == SelectSeq(mlogG[a], LAMBDA m : m.ev = "NatRemove")
-Dg(id) == sentC[id]
-Rp(id) == sentS[id]
+\* (total: an observation that refers to a datagram nobody sent is judged against a dummy that satisfies nothing)
+NoDg == [id |-> 0, c |-> 0, k |-> 0, hdr |-> FALSE, dst |-> 0, sz |-> -1, wire |-> -1, t |-> 0, la |-> 0]
+NoRp == [id |-> 0, src |-> 0, a |-> 0, sz |-> -1, nw |-> 0, t |-> 0, fits |-> FALSE]
+Dg(id) == IF id \in 1..Len(sentC) THEN sentC[id] ELSE NoDg
+Rp(id) == IF id \in 1..Len(sentS) THEN sentS[id] ELSE NoRp
 Valid(d) == d.k \in Keys /\ d.hdr /\ d.dst \in Allowed
 AllOutC == UNION {Range(outC[a]) : a \in AIds}
 
@@ -371,7 +382,21 @@ SaltsFresh == \A r1, r2 \in AllOutC : r1.salt = r2.salt => r1 = r2
 CreateOnlyValid == \A m \in Adds : m.x \in 1..Len(sentC) /\ Valid(Dg(m.x)) /\ Dg(m.x).k = m.key /\ Dg(m.x).c = m.c
 CreateOnce == \A m1, m2 \in Adds : (m1.a = m2.a \/ m1.x = m2.x) => m1 = m2
 
+\* completeness (step-synchronous executions, evaluated at quiescence): a datagram that authenticates under a
+\* configured key - for a known client address: the key of its association - and names an allowed destination IS
+\* forwarded; a deliverable datagram that reaches a live association's socket IS relayed
+AtRest == Sync /\ Quiet
+Gone(a) == a # 0 /\ RemsOf(a) # <<>>
+GoneBy(a, t) == a # 0 /\ \E m \in Range(RemsOf(a)) : m.t < t + Slack
+\* (a datagram sent while its association is being torn down carries no obligation either way)
+MustForward(d) == Valid(d) /\ (d.la = 0 \/ (~GoneBy(d.la, d.t) /\ Added(d.la) /\ AddOf(d.la).key = d.k))
+FwdComplete == AtRest => \A d \in Range(sentC) : MustForward(d) => \E e \in Range(outT) : e.did = d.id
+ReplyComplete == AtRest => \A r \in Range(sentS) :
+                   (r.fits /\ ~closing /\ ~(\E m \in Range(RemsOf(r.a)) : m.t < r.t + Slack)) => \E x \in Range(outC[r.a]) : x.sid = r.id
+
 \* ---- C04 ----
+\* while its association is alive every datagram of a client leaves through that association
+SrcStable == Sync => \A e \in Range(outT) : LET d == Dg(e.did) IN (d.la # 0 /\ ~Gone(d.la)) => e.a = d.la
 \* one source socket per association, never shared; it carries only its client's datagrams
 SrcPrivate == \A e1, e2 \in Range(outT) : (e1.sock = e2.sock) <=> (e1.a = e2.a)
 \* whatever arrives on an association's socket is delivered to its owner and to nobody else
@@ -388,8 +413,11 @@ TimeoutOf(e) == IF IsDns(e.dst) THEN DNST ELSE T
 \* already run out (it races with the teardown) promises nothing
 RECURSIVE Prom(_, _, _)
 Prom(ws, i, p) == IF i > Len(ws) THEN p
-                  ELSE Prom(ws, i + 1, IF p = -1 \/ ws[i].t + Slack < p THEN Max(p, ws[i].t + TimeoutOf(ws[i])) ELSE p)
+                  ELSE Prom(ws, i + 1, IF p = -1 \/ ws[i].ts + Slack < p THEN Max(p, ws[i].ts + TimeoutOf(ws[i])) ELSE p)
 Promise(a) == Prom(WritesOf(a), 1, -1)
+\* latest instant the association's deadline can be at (ts = when the client sent, t = when the target received)
+PromiseHi(a) == LET ws == WritesOf(a) IN
+                  IF ws = <<>> THEN -1 ELSE LET S == {ws[i].t + TimeoutOf(ws[i]) : i \in 1..Len(ws)} IN CHOOSE x \in S : \A y \in S : y <= x
 \* the fast close may have fired: the first datagram was a DNS query and a port-53 sender has answered
 \* (the latch is armed from creation, udp.go:261, so a port-53 datagram that reaches the socket before the first
 \* WriteTo - a window of microseconds in which nobody knows the port - also fires it: r.nw = 0)
@@ -410,7 +438,13 @@ WriteExtends == \A a \in AIds : LET co == conn[a] IN
 NoEarlyRemoval == \A a \in AIds : \A m \in Range(RemsOf(a)) : Excused(a) \/ m.t >= Promise(a)
 NoEarlyClose == \A a \in AIds : \A x \in Range(ClsOf(a)) : Excused(a) \/ x.t >= Promise(a)
 RemoveOnce == \A a \in AIds : Len(RemsOf(a)) <= 1
+\* once the deadline has passed without client traffic the association is torn down within bounded time
+\* (evaluated when the proxy is quiescent; Bound = 0 in the model and under virtual time)
+ReclaimedInTime == Quiet => \A m \in Adds : (Len(WritesOf(m.a)) >= 1 /\ now > PromiseHi(m.a) + Bound) => Len(RemsOf(m.a)) = 1
 CloseOnce == \A a \in AIds : Len(ClsOf(a)) <= 1
+\* shutting the listener down expires every association: once Handle has returned and things have settled, every
+\* association that was added has been removed
+ShutdownReclaimed == (h.pc = "returned" /\ Quiet) => \A m \in Adds : Len(RemsOf(m.a)) = 1
 \* fast close: only on a reply from port 53, only when exactly one datagram (a DNS query) had been written
 \* and nothing had been read before; and in that situation it does fire (deadline := now)
 NWr(co, i) == Cardinality({j \in 1..(i - 1) : co[j].op = "wr"})
@@ -449,10 +483,22 @@ PktTSound == \A a \in AIds :
                  /\ Len(ok) = Len(dl)
                  /\ \A i \in 1..Len(ok) : ok[i].x = dl[i].sz /\ ok[i].y = dl[i].wire /\ ok[i].key = AddOf(a).key
                  /\ \A m \in Range(PktTOf(a)) : m.st # "OK" => m.y = 0
-\* every datagram read from an association's socket is reported exactly once (in order) with the size read
-PktTComplete == \A a \in AIds :
-                  LET rds == SelectSeq(conn[a], LAMBDA x : x.op = "rd") IN
-                    Len(PktTOf(a)) <= Len(rds) /\ Len(rds) <= Len(PktTOf(a)) + 1
+\* every client datagram that creates or arrives on an association is reported exactly once, on that association;
+\* datagrams that neither create nor arrive on one are not reported
+NPktC(d) == Cardinality({i \in 1..Len(mlogH) : mlogH[i].ev = "PktC" /\ mlogH[i].did = d.id})
+Creates(d) == \E m \in Adds : m.x = d.id
+PktCPerDatagram == \A d \in Range(sentC) :
+                     /\ NPktC(d) <= 1
+                     /\ \A m \in Range(mlogH) : (m.ev = "PktC" /\ m.did = d.id) =>
+                           (m.c = d.c /\ (d.la = 0 \/ m.a = d.la \/ Gone(d.la)) /\ (m.st = "OK" => \E e \in Range(outT) : e.did = d.id /\ e.a = m.a))
+                     /\ AtRest => /\ (Creates(d) \/ (d.la # 0 /\ ~Gone(d.la))) => NPktC(d) = 1
+                                  /\ (~Creates(d) /\ d.la = 0) => NPktC(d) = 0
+\* every datagram read from an association's socket is reported exactly once
+NPktT(r) == Cardinality({i \in 1..Len(mlogG[r.a]) : mlogG[r.a][i].ev = "PktT" /\ mlogG[r.a][i].did = r.id})
+PktTPerReply == \A r \in Range(sentS) :
+                  /\ NPktT(r) <= 1
+                  /\ \A b \in AIds : b # r.a => \A m \in Range(mlogG[b]) : ~(m.ev = "PktT" /\ m.did = r.id)
+                  /\ (AtRest /\ ~(\E m \in Range(RemsOf(r.a)) : m.t < r.t + Slack)) => NPktT(r) = 1
 
 \* ---- C18 ----
 NoCrash == ~crashed
